@@ -22,7 +22,8 @@ BEHAVIOURS = ("first", "last", "unknown", "raise", "exit")
 #   raise-init  the member cannot even be constructed (the executable rejects the logic, ...)
 #   raise-add   the member refuses the formula when it is asserted
 #   raise-on-c  answers (first model) unless the symbol c occurs in its assertions, then it raises
-EXTRA_BEHAVIOURS = ("raise-init", "raise-add", "raise-on-c")
+#   raise-exitfail  the query raises and releasing the solver afterwards raises too (dead external process)
+EXTRA_BEHAVIOURS = ("raise-init", "raise-add", "raise-on-c", "raise-exitfail")
 ANSWERING = ("first", "last", "raise-on-c")
 
 
@@ -60,7 +61,8 @@ class MemberSolver(Solver):
             if any("c" in free_symbols(f) for f in self.fs):
                 raise RuntimeError("member failed")
             b = "first"
-        if b == "raise":
+        if b in ("raise", "raise-exitfail"):
+            self._failed = True
             raise RuntimeError("member failed")
         if b == "unknown":
             raise SolverReturnedUnknownResultError()
@@ -97,7 +99,8 @@ class MemberSolver(Solver):
         return self.get_model().get_value(item)
 
     def _exit(self):
-        pass
+        if self.BEHAVIOUR == "raise-exitfail" and getattr(self, "_failed", False):
+            raise BrokenPipeError("the solver process is gone")
 
 
 def member_class(beh):
@@ -257,7 +260,7 @@ def run_config(args):
         names = member_names(env, behs, same_solver)
         body = make_body(env, names, script, eoe, unsat)
         some_answer = any(bh in ANSWERING for bh in behs)
-        some_error = any(bh in ("raise", "unknown", "raise-init", "raise-add") for bh in behs)
+        some_error = any(bh in ("raise", "unknown", "raise-init", "raise-add", "raise-exitfail") for bh in behs)
         want = expected(script, unsat, behs)
         cfg = {"members": list(behs), "script": script, "exit_on_exception": eoe, "unsat": unsat,
                "same_solver": bool(same_solver)}
@@ -336,8 +339,8 @@ def configs(ctx):
         for script in ("solve", "solve+model"):
             out.append((behs, script, False, False, None, ctx.seed, True))
     # members that fail before their solve starts (construction, assertion), alone and next to others
-    for behs in itertools.product(("first", "raise-init", "raise-add", "raise"), repeat=2):
-        if any(b in ("raise-init", "raise-add") for b in behs):
+    for behs in itertools.product(("first", "raise-init", "raise-add", "raise", "raise-exitfail"), repeat=2):
+        if any(b in ("raise-init", "raise-add", "raise-exitfail") for b in behs):
             for eoe in (False, True):
                 out.append((behs, "solve+model", eoe, False, None, ctx.seed))
     # assumptions
